@@ -502,31 +502,45 @@ func cscens(thorough bool) []cscen {
 func Run(c *evid.Ctx) {
 	if w := shard.Worker(); w != nil {
 		scs := cscens(c.Thorough())
-		pb := 2
+		// The thorough tier iterates the bound: everything with 2 preemptions first, then 3 preemptions
+		// under an execution cap per scenario and a wall-clock budget per worker (a hit is reported as
+		// non-exhaustive for the larger bound, never as a verdict).
+		type bnd struct{ pb, maxExec int }
+		rounds := []bnd{{2, 0}}
+		var deadline time.Time
 		if c.Thorough() {
-			pb = 3
+			rounds = append(rounds, bnd{3, 150000})
+			deadline = time.Now().Add(28 * time.Minute)
 		}
-		for i, s := range scs {
-			if i%w.N != w.I {
-				continue
-			}
-			st, viols, err := dfs.Explore(s.scenario(), dfs.Config{Preemptions: pb, Faults: 0, StepCap: 3000}, false)
-			if err != nil {
-				c.Broken(err.Error() + " in " + s.String())
-				continue
-			}
-			c.Count("concurrent_scenarios", 1)
-			c.Count("states", int64(st.Executions))
-			c.Count("transitions", int64(st.Steps))
-			c.Count("executions_ending_with_consumer_waiting_on_empty_queue", int64(st.Deadlocks))
-			if i%53 == 0 {
-				c.Sample(map[string]interface{}{"concurrent_scenario": s.String(), "schedules": st.Executions, "preemption_bound": pb})
-			}
-			for _, v := range viols {
-				kind := strings.SplitN(v.Verdict, ":", 2)[0]
-				kind = strings.SplitN(kind, " ", 2)[0]
-				key := fmt.Sprintf("C11:concurrent:double=%v:%s", s.double, kind)
-				c.Violation(key, fmt.Sprintf("%s — %s — schedule %v", s.String(), v.Verdict, v.Choices), map[string]interface{}{"engine": "E1", "scenario": s.String(), "choices": v.Choices, "trace": v.Trace})
+		for ri, r := range rounds {
+			pb := r.pb
+			for i, s := range scs {
+				if i%w.N != w.I {
+					continue
+				}
+				st, viols, err := dfs.Explore(s.scenario(), dfs.Config{Preemptions: pb, Faults: 0, StepCap: 3000, MaxExec: r.maxExec, Deadline: deadline}, false)
+				if err != nil {
+					c.Broken(err.Error() + " in " + s.String())
+					continue
+				}
+				if st.Capped {
+					c.NotExhaustive(fmt.Sprintf("execution cap or time budget hit at preemption bound %d in %s", pb, s.String()))
+				}
+				c.Count("states", int64(st.Executions))
+				c.Count("transitions", int64(st.Steps))
+				if ri == 0 {
+					c.Count("concurrent_scenarios", 1)
+					c.Count("executions_ending_with_consumer_waiting_on_empty_queue", int64(st.Deadlocks))
+				}
+				if i%53 == 0 {
+					c.Sample(map[string]interface{}{"concurrent_scenario": s.String(), "schedules": st.Executions, "preemption_bound": pb})
+				}
+				for _, v := range viols {
+					kind := strings.SplitN(v.Verdict, ":", 2)[0]
+					kind = strings.SplitN(kind, " ", 2)[0]
+					key := fmt.Sprintf("C11:concurrent:double=%v:%s", s.double, kind)
+					c.Violation(key, fmt.Sprintf("%s — %s — schedule %v", s.String(), v.Verdict, v.Choices), map[string]interface{}{"engine": "E1", "scenario": s.String(), "choices": v.Choices, "trace": v.Trace})
+				}
 			}
 		}
 		return
